@@ -129,6 +129,25 @@ func GenTable(r *rand.Rand, npeers int) []Entry {
 	for i := 0; i < n6; i++ {
 		all = append(all, pick(6, a6, lens6))
 	}
+	// IPv4-mapped / IPv4-compatible IPv6 space: the families are kept apart by address length, so ::ffff:a.b.c.d is
+	// routed by the IPv6 table only — whether nothing there covers it, ::ffff:0:0/96 or the /128 belongs to another
+	// peer than the owner of a.b.c.d, or only ::/0 does
+	mapped := func(v4 []byte) []byte {
+		return append([]byte{0, 0, 0, 0, 0, 0, 0, 0, 0, 0, 0xff, 0xff}, v4...)
+	}
+	switch r.Intn(5) {
+	case 0: // nothing covers the mapped space (unless the random v6 prefixes happen to)
+	case 1:
+		all = append(all, Entry{Fam: 6, Bits: mapped([]byte{0, 0, 0, 0}), Len: 96, Owner: r.Intn(npeers)})
+	case 2:
+		all = append(all, Entry{Fam: 6, Bits: mapped(a4), Len: 128, Owner: r.Intn(npeers)})
+	case 3:
+		all = append(all, Entry{Fam: 6, Bits: make([]byte, 16), Len: 0, Owner: r.Intn(npeers)})
+	default:
+		all = append(all, Entry{Fam: 6, Bits: mapped([]byte{0, 0, 0, 0}), Len: 96, Owner: r.Intn(npeers)},
+			Entry{Fam: 6, Bits: mapped(a4), Len: 128, Owner: r.Intn(npeers)},
+			Entry{Fam: 6, Bits: make([]byte, 16), Len: 0, Owner: r.Intn(npeers)})
+	}
 	if r.Intn(8) == 0 && len(all) > 0 { // the same prefix given to a second peer
 		d := all[r.Intn(len(all))]
 		d.Owner = r.Intn(npeers)
@@ -164,6 +183,28 @@ func Boundary(r *rand.Rand, tbl []Entry, fam int) [][]byte {
 	x := make([]byte, alen(fam))
 	r.Read(x)
 	out = append(out, x)
+	zero := make([]byte, alen(fam))
+	ones := make([]byte, alen(fam))
+	for i := range ones {
+		ones[i] = 0xff
+	}
+	out = append(out, zero, ones)
+	if fam == 6 { // every IPv4 boundary address once as ::ffff:a.b.c.d (v4-mapped) and once as ::a.b.c.d (v4-compatible)
+		for _, e := range tbl {
+			if e.Fam != 4 {
+				continue
+			}
+			f, l := Mask(e.Bits, e.Len), Last(e.Bits, e.Len)
+			in := append([]byte{}, f...)
+			for i := range in {
+				in[i] |= l[i] & byte(r.Intn(256))
+			}
+			for _, a := range [][]byte{f, l, in} {
+				out = append(out, append([]byte{0, 0, 0, 0, 0, 0, 0, 0, 0, 0, 0xff, 0xff}, a...),
+					append([]byte{0, 0, 0, 0, 0, 0, 0, 0, 0, 0, 0, 0}, a...))
+			}
+		}
+	}
 	return out
 }
 
